@@ -457,3 +457,17 @@ func errStr(err error) string {
 	c := pbCause(err)
 	return fmt.Sprintf("%T(%v)", c, c)
 }
+
+// panicWriter accepts `at` bytes and panics on the write that would pass that point.
+type panicWriter struct {
+	at  int
+	got int
+}
+
+func (p *panicWriter) Write(b []byte) (int, error) {
+	if p.got+len(b) > p.at {
+		panic("verif: writer panics")
+	}
+	p.got += len(b)
+	return len(b), nil
+}
